@@ -359,6 +359,7 @@ def run_periods(ctx, i, k, probes):
         pts = []
         for p, ts in periods.items():
             pts += [p * P, p * P + P - 1, p * P + rng.randrange(P)]
+            pts += [(p + dp) * P + rng.randrange(P) for dp in (-2, -1, 1, 2, 3)]     # neighbours, so that a period is also reached AFTER a later one was answered
             for t in ts: pts += [t, t - 1, t + 1]
             if len(ts) >= 2:
                 multi += 1; ctx.key(("multi-transition-period", zid, p))
